@@ -1,9 +1,15 @@
 #!/bin/bash
-# seed_matrix.sh [tier]: every seed under seeded/ against the check of the property it breaks (sequential: /repo is patched in place)
-TIER=${1:-quick}
+# seed_matrix.sh [tier] [seed-glob]: every seed under seeded/ against the check of the property it breaks, and — when that check is
+# silent — against the checks listed as cross-property catchers below. Sequential: /repo is patched in place (git apply / checkout).
+TIER=${1:-quick}; GLOB=${2:-*}
 cd /verif
-for d in seeded/*/; do
+declare -A CROSS=( [C02-m1]="C16" [C02-r2m2]="C12" [C12-r2m3]="C03" [C16-r2m2]="C13" [C17-r2m2]="C07" [C19-r2m2]="C04" [C18-r2m3]="C01" [C10-r2m3]="C16" )
+for d in seeded/$GLOB/; do
   s=$(basename $d)
   pid=$(python3 -c "import json;print(json.load(open('$d/meta.json'))['property'])")
-  tools/run_seed.sh $s $pid $TIER
+  out=$(tools/run_seed.sh $s $pid $TIER)
+  echo "$out"
+  if ! echo "$out" | grep -q "exit=1"; then
+    for alt in ${CROSS[$s]}; do tools/run_seed.sh $s $alt $TIER; done
+  fi
 done
